@@ -410,6 +410,42 @@ def wrong_type_files(corp):
     return out
 
 
+
+def structural_variants(data):
+    """DETERMINISTIC line-level edits of a key file, every position: cut exactly at every line boundary (after the
+    newline and just before it), the same with a comment line in front for the first lines, drop every single line,
+    duplicate / swap adjacent lines at the head and the tail (armor tags, headers, blank line, first/last body lines)"""
+    lines = data.split(b"\n")
+    if lines and lines[-1] == b"":
+        lines.pop()
+        trailing = b"\n"
+    else:
+        trailing = b""
+    full = [ln + b"\n" for ln in lines]
+    if not trailing and full:
+        full[-1] = full[-1][:-1]
+    n = len(full)
+    off = 0
+    for i, ln in enumerate(full):
+        off += len(ln)
+        yield "cut:after-line-%d" % i, data[:off]
+        if ln.endswith(b"\n"):
+            yield "cut:after-line-%d-no-newline" % i, data[:off - 1]
+        if i < 4:
+            yield "cut:comment+after-line-%d" % i, b"Comment: x\n" + data[:off]
+            yield "cut:comment+after-line-%d-no-newline" % i, b"# c\n" + data[:off].rstrip(b"\n")
+    for i in range(n):
+        yield "line:drop-%d" % i, b"".join(full[:i] + full[i + 1:])
+    edge = sorted(set(list(range(min(4, n))) + list(range(max(0, n - 3), n))))
+    for i in edge:
+        yield "line:dup-%d" % i, b"".join(full[:i + 1] + full[i:])
+        if i + 1 < n:
+            yield "line:swap-%d" % i, b"".join(full[:i] + [full[i + 1], full[i]] + full[i + 2:])
+    if n:
+        yield "line:only-first", full[0]
+        yield "line:only-first-no-newline", full[0].rstrip(b"\n")
+        yield "line:first+last", full[0] + full[-1]
+
 class Guard:
     """patches the bcrypt module seen by the key readers so that absurd round counts are not executed"""
 
